@@ -172,3 +172,54 @@ Proof.
   rewrite history_independent; [|reflexivity]. unfold isolated_outs, out_dtypes. simpl.
   unfold run. simpl. rewrite iter_id; [|intros; reflexivity]. unfold exec; simpl. unfold upd; simpl. rewrite promote_idem. reflexivity.
 Qed.
+
+(* ---- estimator instances (round 8): the fitted attributes of one object as persistent variables; store-then-read is history independent,
+   a warm start is refuted for every history of fits that contains a double-precision one *)
+Open Scope string_scope.
+Example refit_examples :
+  hist_free fitted refit_prog = true /\ hist_free fitted warm_refit_prog = false /\ hist_free fitted cast_warm_refit_prog = true /\
+  call_outs fitted [fit_call warm_refit_prog F64] (fit_call warm_refit_prog F32) = [("out0", F64)] /\
+  isolated_outs (fit_call warm_refit_prog F32) = [("out0", F32)] /\
+  call_outs fitted [fit_call warm_refit_prog C128] (fit_call warm_refit_prog C64) = [("out0", C128)] /\
+  call_outs fitted [fit_call refit_prog F64] (fit_call refit_prog F32) = [("out0", F32)].
+Proof. repeat split; vm_compute; reflexivity. Qed.
+
+(* store-then-read: after ANY history of calls on the same object (any programs, any dtypes, any sweep counts) the fit returns exactly the data's dtype *)
+Theorem refit_history_independent h t n : In t ctxs -> call_outs fitted h (mkcall (mkenv t t) refit_prog n) = [("out0", t)].
+Proof.
+  intros Ht. rewrite history_independent; [|reflexivity].
+  destruct Ht as [ <- | [ <- | [ <- | [ <- | [] ] ] ] ]; unfold isolated_outs, out_dtypes, run; simpl; (rewrite iter_id; [|intros; reflexivity]); reflexivity.
+Qed.
+Theorem cast_warm_refit_history_independent h t n : In t ctxs -> call_outs fitted h (mkcall (mkenv t t) cast_warm_refit_prog n) = [("out0", t)].
+Proof.
+  intros Ht. rewrite history_independent; [|reflexivity].
+  destruct Ht as [ <- | [ <- | [ <- | [ <- | [] ] ] ] ]; unfold isolated_outs, out_dtypes, run; simpl; (rewrite iter_id; [|intros; reflexivity]); reflexivity.
+Qed.
+
+(* the warm start: what the object remembers after any history of warm-started fits is the promotion of every dtype it was ever fitted with *)
+Definition fl (a : dt) : Prop := a = B \/ a = F32 \/ a = F64.
+Lemma warm_step (a t : dt) : fl a -> (t = F32 \/ t = F64) -> promote (promote a (promote t WF)) t = promote a t /\ fl (promote a t).
+Proof. unfold fl. intros [ -> | [ -> | -> ] ] [ -> | -> ]; simpl; tauto. Qed.
+Lemma warm_store ts : (forall t, In t ts -> t = F32 \/ t = F64) -> forall st, fl (st vD) ->
+  session fitted st (map (fit_call warm_refit_prog) ts) vD = fold_left promote ts (st vD).
+Proof.
+  induction ts as [|t r IH]; intros Hts st Hst; simpl; [reflexivity|].
+  assert (Ht : t = F32 \/ t = F64) by (apply Hts; left; reflexivity).
+  destruct (warm_step (st vD) t Hst Ht) as [E F].
+  rewrite IH.
+  - f_equal. unfold carry, run_from, fit_call. cbn. unfold upd. cbn. exact E.
+  - intros u Hu. apply Hts. right. exact Hu.
+  - unfold carry, run_from, fit_call. cbn. unfold upd. cbn. rewrite E. exact F.
+Qed.
+(* ONE double-precision fit anywhere in the life of the object is enough: every later single-precision fit of the SAME object returns float64, although
+   the same fit of a fresh object returns float32 (induction over the history of fits) *)
+Theorem warm_refit_widens ts : (forall t, In t ts -> t = F32 \/ t = F64) -> In F64 ts ->
+  call_outs fitted (map (fit_call warm_refit_prog) ts) (fit_call warm_refit_prog F32) = [("out0", F64)] /\
+  isolated_outs (fit_call warm_refit_prog F32) = [("out0", F32)].
+Proof.
+  intros Hts Hin. split; [|reflexivity].
+  assert (HS : session fitted st0 (map (fit_call warm_refit_prog) ts) vD = F64).
+  { rewrite (warm_store ts Hts st0); [|left; reflexivity]. apply (fold_promote_sticky ts Hts (st0 vD)); [left; reflexivity | right; exact Hin]. }
+  unfold call_outs, call_state. set (S := session fitted st0 (map (fit_call warm_refit_prog) ts)) in *.
+  cbn. unfold upd. cbn. rewrite HS. reflexivity.
+Qed.
